@@ -161,3 +161,29 @@ func applyStubs(ov map[string][]byte, repoDir string) []string {
 	}
 	return problems
 }
+
+// wsDir returns the work module directory. When VERIF_REPO points at another checkout of the
+// repository (e.g. a scratch worktree carrying a seeded change) a copy of the work module with
+// its replace directives redirected to that checkout is created under work/.
+func wsDir() string {
+	base := filepath.Join(verifRoot, "ws")
+	if repoRoot == "/repo" {
+		return base
+	}
+	alt := filepath.Join(verifRoot, "work", "ws-"+strings.ReplaceAll(strings.Trim(repoRoot, "/"), "/", "_"))
+	if _, err := os.Stat(filepath.Join(alt, "go.mod")); err == nil {
+		return alt
+	}
+	os.MkdirAll(alt, 0o755)
+	for _, f := range []string{"go.mod", "go.sum", "deps.go"} {
+		b, err := os.ReadFile(filepath.Join(base, f))
+		if err != nil {
+			continue
+		}
+		if f == "go.mod" {
+			b = bytes.ReplaceAll(b, []byte("=> /repo"), []byte("=> "+repoRoot))
+		}
+		os.WriteFile(filepath.Join(alt, f), b, 0o644)
+	}
+	return alt
+}
